@@ -17,9 +17,10 @@ class AnchorLost(Exception):
 # --------------------------------------------------------------------------------------------------
 # lexer: mask[i] is True where src[i] is code (not comment / string / char literal)
 # --------------------------------------------------------------------------------------------------
-def code_mask(src):
+def lex_kinds(src):
+    """per character: 'c' code, 'm' comment, 's' string / char literal"""
     n = len(src)
-    mask = [True] * n
+    kind = ['c'] * n
     i = 0
     while i < n:
         c = src[i]
@@ -27,7 +28,7 @@ def code_mask(src):
             j = src.find('\n', i)
             j = n if j < 0 else j
             for k in range(i, j):
-                mask[k] = False
+                kind[k] = 'm'
             i = j
         elif c == '/' and i + 1 < n and src[i + 1] == '*':
             depth, j = 1, i + 2
@@ -41,24 +42,28 @@ def code_mask(src):
                 else:
                     j += 1
             for k in range(i, j):
-                mask[k] = False
+                kind[k] = 'm'
             i = j
         elif c == '"' or (c in 'br' and _is_str_prefix(src, i)):
             j = _skip_string(src, i)
             for k in range(i, j):
-                mask[k] = False
+                kind[k] = 's'
             i = j
         elif c == "'":
             j = _skip_char_or_lifetime(src, i)
             if j is not None:
                 for k in range(i, j):
-                    mask[k] = False
+                    kind[k] = 's'
                 i = j
             else:
                 i += 1
         else:
             i += 1
-    return mask
+    return kind
+
+
+def code_mask(src):
+    return [k == 'c' for k in lex_kinds(src)]
 
 
 def _is_str_prefix(src, i):
@@ -338,16 +343,16 @@ class Extracted:
 
     # X2 ------------------------------------------------------------------------------------------
     def strip_docs(self):
-        mask = code_mask(self.text)
+        kind = lex_kinds(self.text)
         out, i, n, dropped = [], 0, len(self.text), 0
         while i < n:
-            if not mask[i] and self.text.startswith('//', i):
+            if kind[i] == 'm' and self.text.startswith('//', i):
                 j = self.text.find('\n', i)
                 j = n if j < 0 else j
                 dropped += 1
                 i = j
-            elif not mask[i] and self.text.startswith('/*', i):
-                while i < n and not mask[i]:
+            elif kind[i] == 'm' and self.text.startswith('/*', i):
+                while i < n and kind[i] == 'm':
                     i += 1
                 dropped += 1
             else:
